@@ -233,6 +233,14 @@ func (it *indexedMessageIterator) loadChunk(chunkIndex *ChunkIndex) error {
 	}
 
 	compressedChunkLength := chunkIndex.ChunkLength
+	// the chunk record must hold at least its opcode and length, and lie within the file
+	if compressedChunkLength < 9 || compressedChunkLength > uint64(it.fileSize)-chunkIndex.ChunkStartOffset {
+		return fmt.Errorf("%w: chunk of length %d at offset %d in a file of %d bytes",
+			ErrBadOffset, compressedChunkLength, chunkIndex.ChunkStartOffset, it.fileSize)
+	}
+	if compressedChunkLength >= math.MaxInt32 {
+		return fmt.Errorf("chunk of length %d: %w", compressedChunkLength, ErrLengthOutOfRange)
+	}
 	if uint64(cap(it.recordBuf)) < compressedChunkLength {
 		newCapacity := int(float64(compressedChunkLength) * chunkBufferGrowthMultiple)
 		it.recordBuf = make([]byte, compressedChunkLength, newCapacity)
@@ -262,7 +270,10 @@ func (it *indexedMessageIterator) loadChunk(chunkIndex *ChunkIndex) error {
 	chunkSlot := &it.chunkSlots[chunkSlotIndex]
 	bufSize := parsedChunk.UncompressedSize
 	if uint64(cap(chunkSlot.buf)) < bufSize {
-		chunkSlot.buf = make([]byte, bufSize)
+		chunkSlot.buf, err = makeSafe(bufSize)
+		if err != nil {
+			return fmt.Errorf("failed to allocate chunk buffer: %w", err)
+		}
 	} else {
 		chunkSlot.buf = chunkSlot.buf[:bufSize]
 	}
@@ -395,7 +406,10 @@ func readRecord(r io.Reader, buf []byte) (OpCode, []byte, error) {
 	opcode := OpCode(buf[0])
 	recordLen := binary.LittleEndian.Uint64(buf[1:])
 	if uint64(cap(buf)) < recordLen {
-		buf = make([]byte, recordLen)
+		buf, err = makeSafe(recordLen)
+		if err != nil {
+			return 0, nil, fmt.Errorf("failed to allocate record buffer: %w", err)
+		}
 	} else {
 		buf = buf[:recordLen]
 	}
